@@ -364,11 +364,12 @@ bool LineParser::parse_git_extended_info(Patch& patch, int strip)
     auto parse_filename = [&](std::string& output, const std::string& prefix) {
         // NOTE: we do 'strip - 1' here as the extended headers do not come with a leading
         // "a/" or "b/" prefix - strip the filename as if this part is already stripped.
+        const int extended_strip = strip <= 0 ? -1 : strip - 1;
         if (peek() == '"') {
             output = parse_quoted_string();
-            output = strip_path(output, strip - 1);
+            output = strip_path(output, extended_strip);
         } else {
-            output = strip_path(std::string(m_current, m_end), strip - 1);
+            output = strip_path(std::string(m_current, m_end), extended_strip);
         }
 
         // Special case - we're not stripping at all. So make sure to add on the "a/" or "b/" prefix.
@@ -751,10 +752,13 @@ void Parser::parse_context_hunk(std::vector<PatchLine>& old_lines, LineNumber& o
 
     auto append_content = [&](std::vector<PatchLine>& lines, LineNumber start_line, LineNumber end_line) {
         NewLine newline;
-        for (LineNumber i = start_line + static_cast<LineNumber>(lines.size()); i <= end_line; ++i) {
+        // NOTE: the range may go all the way up to the largest possible line number.
+        for (LineNumber i = saturating_add(start_line, static_cast<LineNumber>(lines.size())); i <= end_line; ++i) {
             if (!get_line(line, &newline))
                 throw parser_error("context mangled in hunk at line " + std::to_string(from_file_range_line_number));
             append_line(lines, line, newline);
+            if (i == end_line)
+                break;
         }
     };
 
